@@ -348,6 +348,7 @@ def build_alias_table(chk):
                     table_cells[tok.strip()] = (rowfmt, SENTENCE_NAMES.get(col))
     facts["x2y_from_table"] = len(table_cells)
     seen = set()
+    helped = set()
     cand = list(table_cells) + ["--%s2%s" % (a, b) for a in LETTERS for b in LETTERS + "b"]
     for flag in cand:
         if flag in seen:
@@ -366,6 +367,7 @@ def build_alias_table(chk):
         if not (m or m2):
             continue
         facts["x2y_from_help_flag"] += 1
+        helped.add(flag)
         if m:
             (fi, xi), (fo, xo) = _fmt_of_sentence(m.group(1)), _fmt_of_sentence(m.group(2))
         else:
@@ -382,6 +384,13 @@ def build_alias_table(chk):
         if flag in table_cells and table_cells[flag] != (fi, fo):
             facts["table_inconsistencies"].append(f"{flag}: matrix position says {table_cells[flag]}, help sentence says {(fi, fo)}")
         add("x2y", flag, [flag], _iflag(fi) + xi + _oflag(fo) + xo, fi, doc=sent.strip().replace("\n", " "))
+    # the matrix as pasted into the documentation pages: a flag the pages list must be known to the binary
+    doc_x2y = set()
+    for page in ("reference-main-flag-list.md", "file-formats.md", "keystroke-savers.md"):
+        doc_x2y |= set(re.findall(r"(?<![\w-])--[a-z]2[a-z]\b", X._doc(page)))
+    facts["x2y_listed_in_documentation_pages"] = len(doc_x2y)
+    for flag in sorted(doc_x2y - helped):
+        facts["table_inconsistencies"].append(f"{flag}: listed in the documentation pages, unknown to `mlr help flag`")
     # -p / -T and other 'Keystroke-saver for `...`' sentences
     for sec in ("format-conversion-keystroke-saver-flags", "csv/tsv-only-flags", "file-format-flags", "pprint-only-flags"):
         txt = _help([sec])
@@ -1268,8 +1277,8 @@ def nest_doc_cases(chk):
             (["--ijsonl", "--ojson", "cat"], b'{"a.x":1,"b":{"c":2}}\n', b'[{"a.x":1,"b":{"c":2}}]', None),
             (["--ijsonl", "--ocsv", "cat"], b'{"a":{"x":1,"y":[2,3]}}\n', ("lines", [b"a.x,a.y.1,a.y.2", b"1,2,3"]), None),
             (["--iyaml", "--ocsv", "cat"], b"a:\n  x: 1\n  y:\n    - 2\n    - 3\n", ("lines", [b"a.x,a.y.1,a.y.2", b"1,2,3"]), None),
-            (["--icsv", "--oyaml", "cat"], b"a.x,a.y\n1,2\n", ("lines", [b"- a:", b"    x: 1", b"    y: 2"]), None),
-            (["--icsv", "--oyaml", "--no-auto-unflatten", "cat"], b"a.x,a.y\n1,2\n", ("lines", [b"- a.x: 1", b"  a.y: 2"]), None),
+            (["--icsv", "--oyaml", "cat"], b"a.x,a.z\n1,2\n", ("lines", [b"- a:", b"    x: 1", b"    z: 2"]), None),
+            (["--icsv", "--oyaml", "--no-auto-unflatten", "cat"], b"a.x,a.z\n1,2\n", ("lines", [b"- a.x: 1", b"  a.z: 2"]), None),
             (["--csv", "--no-auto-flatten", "put", '$c = splita($h, ".")'], b"h\na.b\n", ("lines", [b"h,c", b'a.b,"[""a"", ""b""]"']), None),
             (["--csv", "put", '$c = splita($h, ".")'], b"h\na.b\n", ("lines", [b"h,c.1,c.2", b"a.b,a,b"]), None),
         ]},
